@@ -52,7 +52,7 @@ Lemma endpoint_check_emits o_vc n1 o1 a1 b1 nf n2 o2 a2 b2 ns s t ints :
 Proof.
   intros Hs Ht Ha1 Hb1 Ha2 Hb2. unfold py_endpoint_check, sub_rec. cbv zeta.
   destruct (truth (o_vc nf ns)); [|left; reflexivity]. right.
-  cbn [vattr assoc_val String.eqb Ascii.eqb Bool.eqb vadd vmul vsub vcons].
+  cbn [vattr assoc_val String.eqb Ascii.eqb Bool.eqb vadd vmul vsub vsub_b vcons].
   eexists. eexists. split; [reflexivity|].
   destruct Hs as [Hs|Hs]; destruct Ht as [Ht|Ht]; rewrite Hs, Ht; split; lra.
 Qed.
